@@ -338,6 +338,15 @@ func (e *env) rpmCompareOps(n int) {
 			b = edit(rnd, a, rpmAlphabet)
 			r.Count("rpmcmp:edited")
 		}
+		if rnd.Chance(1, 12) {
+			// bytes outside ASCII: separators for the segment pattern; Unicode white space left of the epoch is trimmed
+			a = nonASCIIEdit(rnd, a)
+			if rnd.Chance(1, 2) {
+				b = nonASCIIEdit(rnd, b)
+			}
+			expect = 2
+			r.Count("rpmcmp:non-ascii")
+		}
 		got := timed(5*time.Second, func() string { return sign(rpmver.NewVersion(a).Compare(rpmver.NewVersion(b))) })
 		r.Op("rpmcmp "+hexs(a)+" "+hexs(b), got, a != b)
 		r.Count("rpmcmp:result:" + got)
@@ -402,6 +411,50 @@ func mirror(x, y string) bool {
 		return y == "0"
 	}
 	return x == y
+}
+
+// nonASCIISeqs: valid multi-byte runes (letters, digits and white space of
+// other scripts), and invalid / truncated / overlong byte sequences.
+var nonASCIISeqs = []string{"\u00a0", "\u0085", "\u1680", "\u2003", "\u200a", "\u2028", "\u2029", "\u202f", "\u205f", "\u3000", "\u200b", "\u3001",
+	"\u00e9", "\u00fc", "\u0660", "\uff11", "\u00b2", "\U0001d7d8", "\xc2", "\x85", "\xa0", "\xe2\x80", "\xc0\xa0", "\xe0\x80\xa0", "\xff", "\xe2\x80\x8b", "\xe1\x9a"}
+
+// nonASCIIEdit inserts one to two such sequences, preferably where the
+// libraries look at runes: at the very start (left of an epoch) or anywhere.
+func nonASCIIEdit(rnd *hx.Rand, s string) string {
+	for k := 1 + rnd.Intn(2); k > 0; k-- {
+		seq := nonASCIISeqs[rnd.Intn(len(nonASCIISeqs))]
+		i := 0
+		if !rnd.Chance(1, 2) {
+			i = rnd.Intn(len(s) + 1)
+		}
+		s = s[:i] + seq + s[i:]
+	}
+	if rnd.Chance(1, 3) && !strings.Contains(s, ":") {
+		s = nonASCIISeqs[rnd.Intn(12)] + itoa(1+rnd.Intn(3)) + ":" + s // white space (or not) left of an epoch
+	}
+	return s
+}
+
+func isASCII(s string) bool {
+	for i := 0; i < len(s); i++ {
+		if s[i] >= 0x80 {
+			return false
+		}
+	}
+	return true
+}
+
+// asciiOnly: the go-deb-version and go-apk-version models cover ASCII (both
+// libraries classify runes with the full Unicode tables); their generators
+// must stay inside it.
+func (e *env) asciiOnly(scheme string, vs ...string) {
+	for _, v := range vs {
+		if !isASCII(v) {
+			e.r.Fail("", fmt.Sprintf("harness: the %s generator produced a non-ASCII version %q", scheme, v))
+			return
+		}
+	}
+	e.r.Count("legal:" + scheme + ":ascii")
 }
 
 // edit applies one random insertion, deletion or replacement.
@@ -548,6 +601,13 @@ func (e *env) freeRpmMatcherOps(n int) {
 		if rnd.Chance(2, 3) {
 			a.fixed = edit(rnd, p.version, rpmAlphabet)
 		}
+		if rnd.Chance(1, 10) {
+			p.version = nonASCIIEdit(rnd, p.version)
+			if a.fixed != "" && rnd.Chance(1, 2) {
+				a.fixed = nonASCIIEdit(rnd, a.fixed)
+			}
+			r.Count("vuln-free:non-ascii")
+		}
 		if rnd.Chance(1, 2) {
 			a.pkgVersion = edit(rnd, p.version, rpmAlphabet)
 		}
@@ -566,6 +626,16 @@ func (e *env) archOps(n int) {
 	r := e.r
 	for i := 0; i < n && !r.Stop(); i++ {
 		a, b, op := e.genArch()
+		if e.rnd.Chance(1, 15) {
+			// architectures are compared as byte strings; a pattern is a regexp over UTF-8
+			a = nonASCIIEdit(e.rnd, a)
+			if e.rnd.Chance(1, 2) {
+				b = a
+			} else if e.rnd.Chance(1, 2) {
+				b = nonASCIIEdit(e.rnd, b)
+			}
+			r.Count("archop:non-ascii")
+		}
 		got := timed(5*time.Second, func() string { return fmt.Sprint(op.Cmp(a, b)) })
 		r.Op(fmt.Sprintf("archop %d %s %s %s", uint(op), hexs(a), hexs(b), reOutcome(b, a)), got, true)
 		r.Count("archop:" + got)
@@ -677,6 +747,7 @@ func (e *env) debCompareOps(n int) {
 		}
 		line := "debcmp " + hexs(a) + " " + hexs(b)
 		e.shapes("deb", a, b)
+		e.asciiOnly("deb", a, b)
 		check := func(got string) {
 			r.Count("debcmp:result:" + got)
 			if got == "hang" {
@@ -861,6 +932,7 @@ func (e *env) apkCompareOps(n int) {
 		r.Op("apkcmp2 "+hexs(a)+" "+hexs(b), got, a != b)
 		r.Count("apkcmp:result:" + got)
 		e.shapes("apk", a, b)
+		e.asciiOnly("apk", a, b)
 		if expect != 2 && got != sign(expect) {
 			r.Fail("", fmt.Sprintf("apk-order: Compare(%q,%q)=%s, the apk version scheme says %s", a, b, got, sign(expect)))
 		}
@@ -1028,7 +1100,7 @@ func (e *env) osvCall(sc langScheme, pv, fixedIn string) string {
 func (e *env) urlQueryOps(n int) {
 	r, rnd := e.r, e.rnd
 	keys := []string{"introduced", "fixed", "lastAffected", "limit", "Fixed", ""}
-	vals := []string{"1.0", "2.0.1", "1.0 rc1", "1.0+local", "1%2B2", "a&b", "a=b", "a;b", "", "0", "1.0~rc1", "%zz", "100%"}
+	vals := []string{"1.0", "2.0.1", "1.0 rc1", "1.0+local", "1%2B2", "a&b", "a=b", "a;b", "", "0", "1.0~rc1", "%zz", "100%", "1.0\u00e9", "\xff1", "1\u30002"}
 	for i := 0; i < n && !r.Stop(); i++ {
 		var q string
 		switch c := rnd.Intn(10); {
@@ -1043,7 +1115,7 @@ func (e *env) urlQueryOps(n int) {
 			for k := rnd.Intn(4); k > 0; k-- {
 				part := keys[rnd.Intn(len(keys))]
 				if rnd.Chance(5, 6) {
-					part += "=" + rnd.Pick("1.0", "2.0.1", "1.0+rc1", "1%2B2", "%41", "%4", "%", "%zz", "a;b", "", "1=2", "%3D")
+					part += "=" + rnd.Pick("1.0", "2.0.1", "1.0+rc1", "1%2B2", "%41", "%4", "%", "%zz", "a;b", "", "1=2", "%3D", "%C3%A9", "%ff%FE", "1.0\u00e9", "%E2%80%83x")
 				}
 				parts = append(parts, part)
 			}
